@@ -98,6 +98,10 @@ pub fn replay(path: &str) -> i32 {
         }
     };
     println!("--- unoptimised: {}", eng::printed(&rule));
+    // property-specific re-evaluation where the generic one below would not reproduce the oracle
+    if let Some(code) = replay_specific(&prop, v["kind"].as_str().unwrap_or(""), case, &rule, rule_text, path) {
+        return code;
+    }
     let docs: Vec<DVal> = if let Some(t) = case["doc"].as_str() {
         vec![doc_from_text(t)]
     } else {
@@ -163,5 +167,103 @@ pub fn replay(path: &str) -> i32 {
     } else {
         println!("case no longer deviates");
         0
+    }
+}
+
+fn verdict_line(prop: &str, path: &str, still: bool) -> i32 {
+    if still {
+        println!("VIOLATION property={} replay={}", prop, path);
+        1
+    } else {
+        println!("case no longer deviates");
+        0
+    }
+}
+
+/// Re-run the oracle of the property that wrote the case. None = use the generic replay.
+fn replay_specific(prop: &str, kind: &str, case: &J, rule: &tau_engine::Rule, rule_text: &str, path: &str) -> Option<i32> {
+    let sw = case["switches"].as_i64().unwrap_or(-1);
+    let variant = |r: &tau_engine::Rule| -> tau_engine::Rule {
+        if sw > 0 {
+            eng::optimise(r, Sw(sw as u8)).unwrap_or_else(|_| r.clone())
+        } else {
+            r.clone()
+        }
+    };
+    match (prop, kind) {
+        ("C13", _) => {
+            let r = variant(rule);
+            let res = eng::validate(&r);
+            println!("validate(): {:?}", res);
+            let want_err = case["expected"].as_str() == Some("Err");
+            let still = match &res {
+                Err(_) => true,
+                Ok(Ok(_)) => want_err,
+                Ok(Err(e)) => !want_err || case["failing_examples"].as_array().map(|a| a.iter().filter_map(|x| x.as_str()).any(|m| !m.is_empty() && !e.contains(m))).unwrap_or(false),
+            };
+            Some(verdict_line(prop, path, still))
+        }
+        ("C14", _) => {
+            let r = variant(rule);
+            let ser = serde_yaml::to_string(&r).unwrap_or_default();
+            println!("--- serialised\n{}", ser);
+            let still = match eng::load(&ser) {
+                Ok(Load::Ok(b)) => {
+                    println!("--- reloaded: {}", eng::printed(&b));
+                    eng::printed(&b) != eng::printed(rule)
+                }
+                other => {
+                    println!("reload failed: {}", matches!(other, Err(_)));
+                    true
+                }
+            };
+            Some(verdict_line(prop, path, still))
+        }
+        ("C16", "foreign-key") => {
+            let d = doc_from_text(case["doc"].as_str().unwrap_or("{}"));
+            let log: crate::reps::FindLog = std::sync::Arc::new(std::sync::Mutex::new(vec![]));
+            let rec = crate::reps::to_rec(&d, Some(log.clone()), false);
+            let r = variant(rule);
+            let _ = eng::matches(&r, &rec);
+            let events = log.lock().unwrap().clone();
+            println!("find() calls: {:?}", events);
+            let asked = case["observed"]["asked"].as_str().unwrap_or("\u{0}");
+            Some(verdict_line(prop, path, events.iter().any(|(_, k)| k == asked)))
+        }
+        ("C17", _) => {
+            let orig = case["extra"]["original_order_rule"].as_str()?;
+            let d = doc_from_text(case["doc"].as_str().unwrap_or("{}"));
+            let m = to_yaml_map(&d);
+            let a = eng::load_ok(orig).and_then(|r| eng::matches(&r, &m).ok());
+            let b = eng::matches(rule, &m).ok();
+            println!("original order: {:?}  permuted order: {:?}", a, b);
+            Some(verdict_line(prop, path, a != b))
+        }
+        ("C05", "structure") => {
+            let cond = serde_yaml::from_str::<serde_yaml::Value>(rule_text).ok()?.get("detection")?.get("condition")?.as_str()?.to_string();
+            let reference = crate::cgram::parse(&cond).ok().map(|c| crate::cgram::strip_parens(&c));
+            let engine = crate::cgram::from_engine(&rule.detection.expression);
+            println!("engine tree: {:?}\nreference tree: {:?}", engine.as_ref().map(|c| c.text()), reference.as_ref().map(|c| c.text()));
+            Some(verdict_line(prop, path, engine != reference))
+        }
+        ("C11", "representation") => {
+            let d = doc_from_text(case["doc"].as_str().unwrap_or("{}"));
+            let y = eng::solve3(rule, &to_yaml_map(&d)).ok();
+            let variant_no = case["extra"]["std_variant"].as_u64().unwrap_or(0);
+            let name = case["extra"]["representation"].as_str().unwrap_or("");
+            let other = match name {
+                "json-value" => eng::solve3(rule, &crate::dval::to_json(&d)).ok(),
+                "custom-object(default find)" => eng::solve3(rule, &crate::reps::to_myobj(&d)).ok(),
+                "custom-object(own find)" => eng::solve3(rule, &crate::reps::to_rec(&d, None, false)).ok(),
+                _ => eng::solve3(rule, &crate::reps::to_std_doc(&d, variant_no, true)).ok(),
+            };
+            println!("yaml-mapping: {:?}  {}: {:?}", y, name, other);
+            Some(verdict_line(prop, path, y != other))
+        }
+        ("C12", _) | ("C15", _) => {
+            println!("this witness depends on history / threads / a second build: re-run `./check {} --tier quick` with VERIF_SEED={} to reproduce; the generic replay below only re-evaluates the rule", prop, case.get("seed").and_then(|s| s.as_u64()).unwrap_or(1));
+            None
+        }
+        _ => None,
     }
 }
